@@ -151,12 +151,104 @@ def _join(a: frozenset, b: frozenset) -> frozenset:
     return frozenset(common | extra)
 
 
+def _local_aliases(fn_node) -> dict:
+    """name -> path expression, for locals that are assigned exactly once, from a pure path (names, attributes, subscripts by
+    names / constants; no calls), none of whose names is assigned more than once and which is never stored to in the function:
+    `entry = self.scoreboard[sb_idx]`.  A fact about the alias is then also a fact about the path."""
+    assigned: dict = {}
+    stores = set()
+    for n in ast.walk(fn_node):
+        tg = []
+        if isinstance(n, ast.Assign):
+            tg = n.targets
+        elif isinstance(n, (ast.AnnAssign, ast.AugAssign)):
+            tg = [n.target]
+        elif isinstance(n, (ast.For, ast.comprehension)):
+            tg = [n.target]
+        elif isinstance(n, ast.With):
+            tg = [i.optional_vars for i in n.items if i.optional_vars is not None]
+        for t in tg:
+            for x in ast.walk(t):
+                if isinstance(x, ast.Name):
+                    assigned.setdefault(x.id, []).append(n)
+            if isinstance(t, (ast.Attribute, ast.Subscript)):
+                stores.add(norm(t))
+    if isinstance(fn_node, (ast.FunctionDef, ast.AsyncFunctionDef)):
+        a = fn_node.args
+        for p in a.posonlyargs + a.args + a.kwonlyargs:
+            assigned.setdefault(p.arg, []).append(fn_node)
+
+    def pure(e):
+        if isinstance(e, ast.Name):
+            return len(assigned.get(e.id, [])) <= 1
+        if isinstance(e, ast.Constant):
+            return True
+        if isinstance(e, ast.Attribute):
+            return pure(e.value)
+        if isinstance(e, ast.Subscript):
+            return pure(e.value) and pure(e.slice)
+        return False
+    out = {}
+    for name, defs in assigned.items():
+        if len(defs) != 1 or not isinstance(defs[0], (ast.Assign, ast.AnnAssign)) or getattr(defs[0], "value", None) is None:
+            continue
+        d = defs[0]
+        if isinstance(d, ast.Assign) and not (len(d.targets) == 1 and isinstance(d.targets[0], ast.Name)):
+            continue
+        v = d.value
+        if isinstance(v, (ast.Attribute, ast.Subscript)) and pure(v) and norm(v) not in stores \
+                and not any(norm(v).startswith(s_ + ".") or norm(v).startswith(s_ + "[") for s_ in stores):
+            out[name] = v
+    return out
+
+
+class _AliasSubst(ast.NodeTransformer):
+    def __init__(self, env):
+        self.env = env
+        self.hit = False
+
+    def visit_Name(self, n):
+        if isinstance(n.ctx, ast.Load) and n.id in self.env:
+            self.hit = True
+            import copy
+            return copy.deepcopy(self.env[n.id])
+        return n
+
+
 class MustFacts:
     def __init__(self, g: CFG, normal_only: bool = True):
         self.g = g
         self.normal_only = normal_only
         self.inn: dict = {}
+        try:
+            self.aliases = _local_aliases(g.fn.node)
+        except Exception:
+            self.aliases = {}
         self._solve()
+        if self.aliases:
+            self.inn = {k: self._with_aliases(v) for k, v in self.inn.items()}
+
+    def _with_aliases(self, clauses: frozenset) -> frozenset:
+        """every clause that mentions an alias, repeated with the alias replaced by the path it stands for"""
+        extra = set()
+        for cl in clauses:
+            if not (clause_names(cl) & set(self.aliases)):
+                continue
+            lits = []
+            hit = False
+            for (t, p) in cl:
+                try:
+                    e = ast.parse(t, mode="eval").body
+                except SyntaxError:
+                    lits = None
+                    break
+                sub = _AliasSubst(self.aliases)
+                e2 = sub.visit(e)
+                hit = hit or sub.hit
+                lits.append((norm(e2), p))
+            if lits and hit:
+                extra.add(frozenset(lits))
+        return frozenset(clauses | extra) if extra else clauses
 
     def _solve(self):
         g = self.g
@@ -206,7 +298,8 @@ class MustFacts:
         paths = written_paths(n)
         if paths:
             base = frozenset(cl for cl in base if not any(_mentions(t, pth) for (t, _p) in cl for pth in paths))
-        return base | frozenset(edge_facts(n, label))
+        out = base | frozenset(edge_facts(n, label))
+        return self._with_aliases(out) if getattr(self, "aliases", None) else out
 
     def holds(self, n: Node, pred) -> Optional[frozenset]:
         """First clause at node n all of whose literals satisfy pred(text, polarity)."""
